@@ -242,15 +242,13 @@ class Builder:
             self.post(alias, "JOIN #c")
 
     def final_gets(self, aliases, ms, bg=()):
-        """Ends the program: every live session posts a sentinel, then its whole stream is read
-        (sessions in `bg` have a background GET open since their creation)."""
-        self.sentinel = {}
-        for a in list(aliases) + list(bg):
-            self.sentinel[a] = self.post(a, "PING :sentinel")
+        """Ends the program: for every live session a sentinel request is posted and its whole stream is
+        read until the sentinel's reply arrives (step `drain` of harness/lines; deadline `ms`)."""
+        self.drains = {}
         for a in aliases:
-            self.streams[a] = self.add({"op": "get", "session": a, "lastseen": "0.0", "ms": ms})
+            self.drains[a] = self.streams[a] = self.add({"op": "drain", "session": a, "ms": ms})
         for a in bg:
-            self.streams[a] = self.add({"op": "collect", "bg": "g-" + a, "ms": ms})
+            self.drains[a] = self.streams[a] = self.add({"op": "drain", "session": a, "ms": ms, "bg": "g-" + a})
 
     def program(self):
         return {"name": self.name, "opts": self.opts, "steps": self.steps}
@@ -329,7 +327,7 @@ class Plan:
         self.records.append(self.start)
         for case in cases:
             self.case(case)
-        self.b.final_gets(["bob", "sub"], 4000 if ctx.quick else 8000, bg=[self.b.victim] if kind == "oper" else [])
+        self.b.final_gets(["bob", "sub"], 30000, bg=[self.b.victim] if kind == "oper" else [])
 
     def names(self):
         return {"CHAN": "#c", "BOB": "bob", "SELF": self.subject_nick, "VIC": getattr(self.b, "victim", "vic000"),
@@ -341,7 +339,7 @@ class Plan:
         op = step["op"]
         if op == "otherjoin":
             b.post("bob", "JOIN #c")
-            self.records.append({"ev": "Step", "id": caseid, "op": "otherjoin", "data": [], "skip": [], "all": True, "_rig": None})
+            self.records.append({"ev": "Step", "id": caseid, "op": "otherjoin", "data": [], "skip": [], "all": True, "opt": [], "_rig": None})
             return
         if op == "vicjoin":
             # the killed victim's stream ended; collect it, then bring a new one
@@ -349,7 +347,7 @@ class Plan:
             b.add({"op": "delete", "session": old, "quitmessage": "cleanup"})
             b.streams[old] = b.add({"op": "collect", "bg": "g-" + old, "ms": 3000})
             new_victim(b)
-            self.records.append({"ev": "Step", "id": caseid, "op": "vicjoin", "data": [], "skip": [], "all": True, "_rig": None})
+            self.records.append({"ev": "Step", "id": caseid, "op": "vicjoin", "data": [], "skip": [], "all": True, "opt": [], "_rig": None})
             return
         conc = Conc(self.rnd, self.names(), nickframe=frame["id"].startswith("nick"))
         text, flat = conc.text(step["data"])
@@ -359,6 +357,7 @@ class Plan:
         if [y for y in flat[:1]] == ["JOIN"]:
             skip = JOIN_SKIP
         rec = {"ev": "Step", "id": caseid, "op": op, "data": rle(flat), "skip": skip, "all": False,
+               "opt": ["vic"] if frame["id"] == "kill-vt" and main else [],
                "_vic": getattr(b, "victim", None), "_text": text}
         if op == "post":
             n = b.cmid.get("sub", 5000) + 1
@@ -393,24 +392,28 @@ class DyingPlan:
         self.n = 0
         for case in cases:
             self.case(case)
-        self.b.final_gets(["bob"], 4000 if ctx.quick else 8000)
+        self.b.final_gets(["bob"], 30000)
 
     def case(self, case):
         b = self.b
         frame, xs, cid = case["frame"], case["x"], case["id"]
         self.n += 1
         alias = "tm%04d" % self.n
-        if self.kind == "unreg":
+        unreg = self.kind == "unreg"
+        if unreg:
             b.add({"op": "create_session", "as": alias})
             nick = ""
         else:
             b.session(alias, alias)
             nick = alias
-        b.add({"op": "get", "session": alias, "lastseen": "0.0", "bg": "g-" + alias})
+            # a registered session's stream ends with the session (the QUIT batch is the last one written)
+            b.add({"op": "get", "session": alias, "lastseen": "0.0", "bg": "g-" + alias})
         self.records.append({"ev": "Start", "id": cid, "_kind": self.kind, "_subject": alias, "_nick": nick, "_self": alias})
         conc = Conc(self.rnd, {"CHAN": "#c", "BOB": "bob", "SELF": alias, "VIC": "vic000", "NEWNICK": alias})
         text, flat = conc.text(list(frame["pre"]) + list(xs) + list(frame["post"]))
-        rec = {"ev": "Step", "id": cid, "op": frame["op"], "data": rle(flat), "skip": [], "all": False, "_vic": None, "_text": text}
+        if not unreg:
+            b.add({"op": "sleep", "ms": 3})      # let the subject's stream catch up: it is cut with the session
+        rec = {"ev": "Step", "id": cid, "op": frame["op"], "data": rle(flat), "skip": [], "all": False, "opt": ["self"], "_vic": None, "_text": text}
         if frame["op"] == "post":
             body = body_post(text, 7001)
             if len(body.encode("utf-8")) > 2048:
@@ -421,12 +424,18 @@ class DyingPlan:
             rec["_rig"] = b.add({"op": "delete", "session": alias, "body": body_delete(text)})
         self.records.append(rec)
         # a second request after the end must find no session (model: gone)
-        rec2 = {"ev": "Step", "id": cid + "+after", "op": "post", "data": rle(["PING"]), "skip": [], "all": False, "_vic": None, "_text": "PING"}
+        rec2 = {"ev": "Step", "id": cid + "+after", "op": "post", "data": rle(["PING"]), "skip": [], "all": False, "opt": ["self"], "_vic": None, "_text": "PING"}
         rec2["_rig"] = b.add({"op": "post", "session": alias, "body": body_post("PING", 7002)})
         self.records.append(rec2)
-        # end sessions that survived (e.g. the QUIT word was not parsed as such): the stream ends with the session
-        b.add({"op": "delete", "session": alias, "quitmessage": "cleanup"})
-        b.streams[alias] = b.add({"op": "collect", "bg": "g-" + alias, "ms": 3000})
+        if unreg:
+            # an unregistered session's QUIT writes nothing, so its stream would stay open: read it up to a
+            # sentinel instead (refused at once if the session is gone; then it never received anything)
+            b.streams[alias] = b.add({"op": "drain", "session": alias, "ms": 30000})
+            b.add({"op": "delete", "session": alias, "quitmessage": "cleanup"})
+        else:
+            # end sessions that survived (e.g. the QUIT word was not parsed as such): the stream ends with the session
+            b.add({"op": "delete", "session": alias, "quitmessage": "cleanup"})
+            b.streams[alias] = b.add({"op": "collect", "bg": "g-" + alias, "ms": 3000})
 
 
 # ------------------------------------------------------------ read back
@@ -446,13 +455,11 @@ def by_raft_id(lines):
 
 def check_sentinels(b, by_i, streams):
     """Completeness: the stream of every session alive at the end must reach its sentinel request."""
-    for alias, i in getattr(b, "sentinel", {}).items():
+    for alias, i in getattr(b, "drains", {}).items():
         r = by_i[i][-1]
-        if r.get("status") != 200 or r["delta"]["raft"] != 1:
-            raise vlib.Inconclusive("program %s: sentinel of %s was not accepted (status %s)" % (b.name, alias, r.get("status")))
-        rid = r["post"]["raftLast"]
-        if not any(ln["id"] == rid for ln in streams.get(alias, [])):
-            raise vlib.Inconclusive("program %s: stream of %s is incomplete (sentinel not reached within the deadline)" % (b.name, alias))
+        if r.get("err") or not (r.get("extra") or {}).get("reached"):
+            raise vlib.Inconclusive("program %s: stream of %s is incomplete (sentinel not reached within the deadline): %s" % (
+                b.name, alias, r.get("err")))
 
 
 def host_of(lines, nick):
@@ -503,9 +510,9 @@ def harvest(ctx, plan, recs, judge, srvname):
     hosts = {}
 
     def host(alias, nick):
+        # bob is a member of the channel from the start: he sees every set-up JOIN
         if alias not in hosts:
-            h = host_of(streams.get(alias, []), nick) if nick else None
-            hosts[alias] = h
+            hosts[alias] = host_of(streams.get("bob", []), nick) if nick else None
         return hosts[alias]
 
     out = []
@@ -527,14 +534,15 @@ def harvest(ctx, plan, recs, judge, srvname):
             if bh is None or (nick and h is None):
                 raise vlib.Inconclusive("program %s: cannot find the JOIN line of a set-up session" % b.name)
             vic = getattr(b, "victim", None) or "vic000"
+            vh = host(vic, vic) if getattr(b, "victim", None) else None
             env = {"self": len(rec["_self"]), "bob": 3, "vic": len(vic), "chan": 2, "srv": len(srvname),
-                   "host": len(h) if h else len(bh), "bhost": len(bh), "vhost": len(bh),
+                   "host": len(h) if h else len(bh), "bhost": len(bh), "vhost": len(vh) if vh else len(bh),
                    "buser": [["o", 3]], "breal": [["o", 3]], "vuser": [["o", len(vic)]], "vreal": [["o", len(vic)]],
                    "bobop": True}
             out.append({"ev": "Start", "id": rec["id"], "env": env, "st": st})
             continue
         o = {"ev": "Step", "id": rec["id"], "op": rec["op"], "data": rec["data"], "skip": rec["skip"], "all": rec["all"],
-             "obs": {"self": [], "other": [], "vic": []}}
+             "opt": rec["opt"], "obs": {"self": [], "other": [], "vic": []}}
         if rec.get("_rig") is not None:
             r = by_i[rec["_rig"]][-1]
             status = r.get("status")
@@ -670,9 +678,9 @@ def fuzz_program(ctx, name, rnd, cmds, nsteps):
             body = json_bytes([("Data", b"QUIT :" + s), ("ClientMessageId", 9001)])
             i = b.add({"op": "raw", "session": alias, "method": "POST", "data": base64.b64encode(body).decode()})
         origin[i] = s
-        b.streams[alias] = b.add({"op": "collect", "bg": "g-" + alias, "ms": 3000})
         b.add({"op": "delete", "session": alias, "quitmessage": "cleanup"})
-    b.final_gets(["bob"] + subs, 4000 if ctx.quick else 8000)
+        b.streams[alias] = b.add({"op": "collect", "bg": "g-" + alias, "ms": 3000})
+    b.final_gets(["bob"] + subs, 30000)
     b.origin = origin
     return b
 
@@ -718,7 +726,9 @@ CHECK_DEADLOCK FALSE
 
 def validate_chunk(ctx, k, trace, maxuser):
     text = "\n".join(json.dumps(r, sort_keys=True, separators=(",", ":")) for r in trace) + "\n"
+    # short single-threaded runs: C1 only (the optimising JIT costs more CPU than it saves here)
     r = ctx.tlc("LinesTrace", cfg="LinesTrace_run.cfg", workers=1, timeout=900, name="tlc-trace-%d" % k,
+                jvm=["-XX:TieredStopAtLevel=1", "-XX:ParallelGCThreads=2"],
                 files={"Lines_trace.ndjson": text, "LinesTrace_run.cfg": TRACE_CFG % maxuser})
     acc = rig_common.trace_accepted(r.out)
     if not r.ok or acc is None or acc[0] != len(trace):
@@ -765,7 +775,7 @@ def probe_tree(ctx, binary):
     b = Builder("c15-probe", random.Random(0))
     b.session("p", "prb", user="u" * 200, real="r", join=False)
     b.post("p", "WHOIS prb")
-    b.final_gets(["p"], 3000)
+    b.final_gets(["p"], 30000)
     recs = rig_common.run(ctx, binary, [b.program()], par=1, name="probe")[b.name]
     lines = stream_lines(rig_common.by_step(recs), b.streams["p"])
     srv, ulen = None, None
@@ -822,7 +832,50 @@ def shard(lst, size):
     return [lst[i:i + size] for i in range(0, len(lst), size)] or [[]]
 
 
+def replay(ctx, path):
+    """./check C15 --replay <violation file>: sends the recorded input again (from a registered member of a
+    channel with a second session, and from an unregistered session) and judges every delivered line."""
+    with open(path) as fh:
+        v = json.load(fh)["replay"]
+    text = v.get("sent") or ""
+    binary = build_rig(ctx)
+    b = Builder("c15-replay", random.Random(0))
+    b.session("bob", "bob")
+    b.session("sub", "sue")
+    b.add({"op": "create_session", "as": "raw"})
+    raw = text.encode("latin-1") if v.get("recipient") == "fuzz" else text.encode("utf-8", "surrogatepass")
+    for alias in ("sub", "raw"):
+        if v.get("op") == "delete":
+            if alias == "raw":
+                continue
+            b.add({"op": "get", "session": alias, "lastseen": "0.0", "bg": "g-" + alias})
+            b.add({"op": "raw", "session": alias, "method": "DELETE",
+                   "data": base64.b64encode(json_bytes([("Quitmessage", raw)])).decode()})
+            b.streams[alias] = b.add({"op": "collect", "bg": "g-" + alias, "ms": 3000})
+        else:
+            b.add({"op": "raw", "session": alias, "method": "POST",
+                   "data": base64.b64encode(json_bytes([("Data", raw), ("ClientMessageId", 4242)])).decode()})
+    b.post("bob", "PRIVMSG #c :after")
+    live = ["bob", "raw"] + ([] if v.get("op") == "delete" else ["sub"])
+    b.final_gets(live, 30000)
+    recs = rig_common.run(ctx, binary, [b.program()], par=1, name="replay")[b.name]
+    by_i = rig_common.by_step(recs)
+    judge = Judge(ctx)
+    for alias, idx in b.streams.items():
+        for ln in stream_lines(by_i, idx):
+            faults = judge.check(ln["data"], {"op": v.get("op", "post"), "rcpt": "other" if alias == "bob" else "self",
+                                              "prog": b.name, "case": "replay", "text": text})
+            if faults:
+                ctx.log("%s received %r: %s" % (alias, ln["data"][:200], faults))
+    ctx.cov["delivered_lines_checked"] = judge.lines
+    ctx.cov["delivered_lines_violating"] = judge.bad
+    ctx.cov["traces_validated_against_impl"] = 1
+    ctx.sample({"replayed": path, "lines": judge.lines, "violating": judge.bad})
+
+
 def run(ctx):
+    if getattr(ctx, "replay", None):
+        return replay(ctx, ctx.replay)
     rnd = random.Random(ctx.seed * 7919 + (1 if ctx.quick else 2))
     # ---- 1. design level: exhaustive TLC at small scale
     cfg = "Lines_small.cfg" if ctx.quick else "Lines_thorough.cfg"
@@ -851,13 +904,13 @@ def run(ctx):
     # ---- 3. replay programs
     main, dying = gen_cases(ctx, spec, rnd)
     plans = []
-    per = 700 if ctx.quick else 1500
+    per = 260 if ctx.quick else 400
     for kind in sorted(main):
         for k, cs in enumerate(shard(main[kind], per)):
             if cs:
                 plans.append(Plan(ctx, spec, kind, k, cs, random.Random(rnd.random())))
     for kind in sorted(dying):
-        for k, cs in enumerate(shard(dying[kind], 150)):
+        for k, cs in enumerate(shard(dying[kind], 60)):
             if cs:
                 plans.append(DyingPlan(ctx, spec, kind, k, cs, random.Random(rnd.random())))
     cmds = repo_commands()
@@ -867,6 +920,7 @@ def run(ctx):
     nsteps = sum(len(p["steps"]) for p in programs)
     ctx.log("replay: %d programs, %d requests (%d model cases)" % (len(programs), nsteps, sum(len(v) for v in main.values()) + sum(len(v) for v in dying.values())))
     res = rig_common.run(ctx, binary, programs, par=8, timeout=1500, name="replay")
+    ctx.log("replay done")
 
     # ---- 4. predicate on every delivered line + trace records
     judge = Judge(ctx)
@@ -884,6 +938,9 @@ def run(ctx):
     ctx.cov["fuzz"] = {"programs": len(fuzz), "requests_accepted": fa, "lines": fl, "commands": len(cmds)}
     ctx.cov["replayed_requests"] = nsteps
 
+    ctx.log("observations harvested: %d lines judged" % judge.lines)
+    if os.environ.get("C15_DUMP_TRACE"):
+        vlib.write_ndjson(os.environ["C15_DUMP_TRACE"], trace)
     # ---- 5. trace validation at real scale
     chunks = split_scenarios(trace, 8)
     steps = sum(1 for t in trace if t["ev"] == "Step")
@@ -934,12 +991,12 @@ def selftest(ctx, trace, maxuser):
             cur = [t]
         else:
             cur.append(t)
-            if t["obs"]["other"] and not t["all"] and len(cur) < 400:
+            if t["obs"]["other"] and not t["all"] and len(cur) < 120:
                 sc = True
     if not sc:
         ctx.cov["binding_selftest"] = "skipped (no relayed line in the trace)"
         return
-    base = json.loads(json.dumps(cur))
+    base = json.loads(json.dumps(cur[:121]))
     k = max(i for i, t in enumerate(base) if t["ev"] == "Step" and t["obs"]["other"])
     res = {}
     # (a) corrupt one class of one observed line
@@ -952,10 +1009,13 @@ def selftest(ctx, trace, maxuser):
     # (c) inject a CR into an observed line: the predicate evaluated by TLC must fire
     c = json.loads(json.dumps(base))
     c[k]["obs"]["other"][0] = c[k]["obs"]["other"][0] + [["CR", 1]]
-    for name, tr in (("corrupt", a), ("drop", b), ("cr", c)):
-        r, acc, nbad = validate_chunk(ctx, 100 + len(res), tr, maxuser)
-        res[name] = {"drift": acc[1], "bad": nbad}
-    r0, acc0, nbad0 = validate_chunk(ctx, 110, base, maxuser)
+    with concurrent.futures.ThreadPoolExecutor(max_workers=4) as ex:
+        futs = {name: ex.submit(validate_chunk, ctx, 100 + n, tr, maxuser)
+                for n, (name, tr) in enumerate((("corrupt", a), ("drop", b), ("cr", c), ("base", base)))}
+        outs = {name: f.result() for name, f in futs.items()}
+    for name in ("corrupt", "drop", "cr"):
+        res[name] = {"drift": outs[name][1][1], "bad": outs[name][2]}
+    acc0, nbad0 = outs["base"][1], outs["base"][2]
     ok = (res["corrupt"]["drift"] > acc0[1] and res["drop"]["drift"] > acc0[1] and res["cr"]["bad"] > nbad0
           and line_faults(b"PRIVMSG #c :a\rb") and not line_faults(b"ERROR :Closing Link: x") and line_faults(b":nick!user@host"))
     ctx.cov["binding_selftest"] = {"baseline": {"drift": acc0[1], "bad": nbad0}, "mutants": res, "ok": bool(ok)}
